@@ -70,7 +70,9 @@ def strategy(tier):
             if kind in H.SCALAR_KINDS:
                 zeros = 1 if zeros and draw(st.integers(0, 7)) == 0 else 0       # zero python scalars only rarely
             return {"kind": kind, "cplx": bool(cplx), "shape": shape, "zeros": zeros, "seed": draw(seed),
-                    "layout": draw(st.sampled_from(["C", "C", "C", "F", "rev"]))}   # memory layout of array inputs
+                    "layout": draw(st.sampled_from(["C", "C", "C", "F", "rev"])),   # memory layout of array inputs
+                    # 1-D inputs of a single module may be slices of a larger signal (real data only)
+                    "via": draw(st.sampled_from(["direct", "direct", "basic", "fancy"]))}
         return f()
 
     out_shape = st.sampled_from([[], [], [1], [3], [2, 2]])
@@ -338,9 +340,24 @@ def check_case(case):
     sig = {}
     prealloc = set()
     layouts = dict(zip(B["sources"], [i.get("layout", "C") for i in case["inputs"]]))
+    vias = dict(zip(B["sources"], [i.get("via", "direct") for i in case["inputs"]]))
+    via_base = {}
     for n in B["sources"]:
         v = base[n]
         lay_n = layouts.get(n, "C")
+        via = vias.get(n, "direct")
+        if via != "direct" and isinstance(v, np.ndarray) and v.ndim == 1 and not B["cx"] and case["template"] == "single":
+            # the module input (and fromsig entry) is a SignalSlice of a larger source signal: a basic slice (a view) or
+            # an index-array slice (its state getter returns a copy, so every write must go through the setter)
+            rv = np.random.default_rng([case["rng_seed"], len(via_base)])
+            big = rv.uniform(0.3, 2.0, v.size + 2)
+            idx = slice(1, v.size + 1) if via == "basic" else rv.permutation(v.size + 2)[:v.size]
+            big[idx] = v
+            bsig = mk(n + "_base", big)
+            sig[n] = bsig[idx]
+            via_base[n] = (bsig, _bits(big))
+            labels.append("input_is_slice:" + via)
+            continue
         sig[n] = mk(n, _relayout(v.copy(), lay_n) if isinstance(v, np.ndarray) else v)
         if isinstance(v, np.ndarray) and v.ndim >= 1 and not sig[n].state.flags["C_CONTIGUOUS"]:
             labels.append("noncontiguous_input:" + lay_n)
@@ -465,7 +482,14 @@ def check_case(case):
     # ---- after the call: states restored, no sensitivity left
     for n in fs:
         st_now = sig[n].state
-        if isinstance(x_before[n], np.ndarray) and st_now is not x_before[n] and n in B["sources"]:
+        if n in via_base:
+            bsig, bits0 = via_base[n]
+            if _bits(bsig.state) != bits0:
+                bad("restore:value_changed:sliced_source", f"input {n} is a slice of a larger signal whose state is not "
+                                                           f"restored: {bsig.state!r}")
+            elif _bits(st_now) != bits_before[n]:
+                bad("restore:value_changed:array", f"input {n}: before {x_before[n]!r}, after {st_now!r}")
+        elif isinstance(x_before[n], np.ndarray) and st_now is not x_before[n] and n in B["sources"]:
             bad("restore:array_object_replaced", f"input {n}: state is a different object after the call")
         elif _bits(st_now) != bits_before[n]:
             bad(f"restore:value_changed:{'array' if isinstance(x_before[n], np.ndarray) else 'scalar'}",
@@ -473,6 +497,10 @@ def check_case(case):
     # a kept allocation must be all zero; so must the buffer of a signal whose slices are module inputs (resetting a
     # SignalSlice zeroes its part of the base buffer, it cannot drop it)
     sliced = {"x", "xs"} if case.get("xslice") else set()
+    for n in via_base:
+        sliced.add(n)
+        sig[n + "_base"] = via_base[n][0]
+        sliced.add(n + "_base")
     left = [n for n, s in sig.items() if s.sensitivity is not None
             and not ((n in prealloc or n in sliced) and not np.any(s.sensitivity))]
     if left:
